@@ -52,8 +52,8 @@ def run(ctx):
     ctx.require("parse.method", 5)
     ctx.require("function_type_checked", 10)
     n = ctx.n(5000, 160000)
-    run_kind(ctx, OP, "function", n // 3, knobs(hostile_strings=not ctx.quick(), p_doc_states_default=0.15), extra_check=extra)
-    run_kind(ctx, OP, "method", n - n // 3, knobs(hostile_strings=not ctx.quick(), p_doc_states_default=0.15), extra_check=extra)
+    run_kind(ctx, OP, "function", n // 3, knobs(hostile_strings=not ctx.quick(), p_doc_states_default=0.15, p_hyphen_tokens=0.3), extra_check=extra)
+    run_kind(ctx, OP, "method", n - n // 3, knobs(hostile_strings=not ctx.quick(), p_doc_states_default=0.15, p_hyphen_tokens=0.3), extra_check=extra)
     # unsupported by design: other docstring formats
     from doctrans import emit
     from ..gen_ir import IRGen
